@@ -345,6 +345,7 @@ def run_check(prop, title, families, tier, meta):
             tasks.append((fam, cfg, tier, deadline, len(tasks)))
     nproc = min(int(os.environ.get("VERIF_JOBS", "16")), max(1, len(tasks)))
     results = []
+    lost_tasks = 0
     nproc = int(os.environ.get("VERIF_JOBS", "16"))
     if nproc > 1:
         ctxm = mp.get_context("fork")
@@ -364,6 +365,12 @@ def run_check(prop, title, families, tier, meta):
                     else:
                         nxt.append(p)
                 pending = nxt
+                if pending and time.time() > deadline + int(os.environ.get("VERIF_LOST_GRACE", "420")):
+                    # every task watches the deadline itself; one that has not returned by now never will (a worker
+                    # process that died - e.g. a crash inside the solver - loses its task in multiprocessing.Pool)
+                    lost_tasks = len(pending)
+                    pool.terminate()
+                    break
                 if pending:
                     time.sleep(0.05)
     else:
@@ -402,6 +409,8 @@ def run_check(prop, title, families, tier, meta):
         if old.startswith(prop + "_"):
             os.remove(os.path.join(VERIF, "replays", old))
     n_replayed = 0
+    if lost_tasks:
+        errors.append(("(pool)", {}, "%d task(s) never returned (worker process died or hung); no verdict for them" % lost_tasks))
     for r in results:
         st = core.Stats()
         st.__dict__.update(r["stats"])
